@@ -241,8 +241,8 @@ func suiteFormatFile(env *Env, res *Result) {
 			if strings.Contains(why, "indented") && unbalancedEnd(text) {
 				shape = "format_not_canonical_unbalanced_end"
 			}
-			if headerNoBlank {
-				shape = "format_header_duplicated"
+			if headerNoBlank && strings.Count(o.f1, strings.SplitN(stdHeader, "\n", 2)[0]) >= 2 {
+				shape = "format_header_duplicated" // the known finding: the header is there twice
 			}
 			res.addFailure(Failure{Kind: "C09", Shape: shape, Input: input, Detail: why + ": " + strconv.Quote(clip(o.f1, 400))})
 		}
